@@ -239,6 +239,26 @@ Definition encode_lines (ls : list (list Z)) : list Z :=
 
 Definition windows_of (c n : Z) : list range := ranges_from (loop_fuel 0 n c) 0 n c.
 
+(* mode 3: several epochs through one Batches value (an iter.Seq yields its list every time) *)
+Fixpoint epochs_read (ck : chunker) (B epoch : Z) (reps : nat) : outcome (list (list Z)) :=
+  match reps with
+  | O => Ok []
+  | S r =>
+      match epoch_read ck B epoch with
+      | Ok ls => match epochs_read ck B (wrap64 (epoch + 1)) r with Ok t => Ok (ls ++ t) | o => o end
+      | o => o
+      end
+  end.
+
+(* mode 4: the windows of a session: boundaries 0, the non-zero 16-bit fields of packed, n. The
+   order in which the chunks are opened, read, closed and rewound does not exist in the model:
+   windows are independent of each other *)
+Definition session_windows (packed n : Z) : list range :=
+  let field k := Z.land (Z.shiftr packed (16 * k)) 65535 in
+  let cuts := filter (fun c => negb (c =? 0)) [field 0; field 1; field 2] in
+  let bounds := 0 :: cuts ++ [n] in
+  combine bounds (tl bounds).
+
 Definition run_c20_file (input : list Z) : list Z :=
   match input with
   | mode :: B :: epoch :: start :: end_ :: nbytes :: bytes =>
@@ -249,7 +269,9 @@ Definition run_c20_file (input : list Z) : list Z :=
           let res :=
             if mode =? 0 then read_window ck B epoch start end_
             else if mode =? 1 then epoch_read ck B epoch
-            else read_windows ck B epoch (windows_of (Z.max start 1) (line_count ck)) in
+            else if mode =? 2 then read_windows ck B epoch (windows_of (Z.max start 1) (line_count ck))
+            else if mode =? 3 then (if start >? 16 then Ok [] else epochs_read ck B epoch (Z.to_nat start))
+            else read_windows ck B epoch (session_windows start (line_count ck)) in
           match res with
           | Ok ls => 0 :: encode_lines (LineSort.sort ls)
           | Err e => [e; 0]
